@@ -49,6 +49,22 @@ func (its *MongoCollections) DeleteOperation(
 	return result.DeletedCount, nil
 }
 
+// DeleteOperationsAfter deletes the operations of a datatype whose sseq is greater than the given one.
+func (its *MongoCollections) DeleteOperationsAfter(
+	ctx iface.OrdaContext,
+	duid string,
+	sseq uint64,
+) (int64, errors.OrdaError) {
+	f := schema.GetFilter().
+		AddFilterEQ(schema.OperationDocFields.DUID, duid).
+		AddFilterGTE(schema.OperationDocFields.Sseq, sseq+1)
+	result, err := its.operations.DeleteMany(ctx, f)
+	if err != nil {
+		return 0, errors.ServerDBQuery.New(ctx.L(), err.Error())
+	}
+	return result.DeletedCount, nil
+}
+
 // GetOperations gets operations of the specified range. For each operation, a given handler is called.
 func (its *MongoCollections) GetOperations(
 	ctx iface.OrdaContext,
